@@ -52,7 +52,10 @@ class ResolveOuterVars(ast.NodeTransformer):
             scope = scope.parent
             has = set()
             if isinstance(scope, ScopeFn):
-                has = scope.defined
+                if scope.is_fn or isinstance(scope, ScopeGen):
+                    has = scope.defined
+                # Otherwise it's a class body, whose variables aren't
+                # visible to nested functions.
             elif isinstance(scope, ScopeLet):
                 has = set(scope.bindings.keys())
             elif isinstance(scope, ScopeGlobal):
